@@ -1,3 +1,4 @@
+import Nsq.Model.Names
 /-!
 # LookupSync — nsqd keeps its nsqlookupds in sync (C16, DESIGN §5)
 
@@ -208,12 +209,39 @@ def runG (f14 f15 : Bool) (s : State) : List Step → Option State
 
 /-! ## `GetTopic` pre-creation of channels -/
 
-/-- channels created on a brand-new topic before `t.Start()`. `answers` has one entry per lookupd that nsqd
-queries over HTTP (`lookupdHTTPAddrs()`): `some l` = that lookupd answered `/channels?topic=` with `l`, `none` = the
-query failed (down, refused, timeout, garbage). `GetLookupdTopicChannels` returns the union of the lists that did
-arrive *together with* an error when only some queries failed; `GetTopic` logs the error and still uses the list.
-`#ephemeral` names are skipped. -/
-def precreate (answers : List (Option (List String))) : List String :=
-  ((answers.filterMap id).flatten.eraseDups).filter (fun c => !c.endsWith "#ephemeral")
+/-- `protocol.IsValidChannelName` on a Go string written as a Lean `String`. When every character is ASCII,
+`Names.ascii s` is exactly the string's bytes; a character ≥ 0x80 is encoded with bytes ≥ 0x80, which are outside the
+name class and outside `#ephemeral`, so the name is invalid (`Names.isValidName` on the UTF-8 bytes is `false`). -/
+def validName (s : String) : Bool :=
+  s.toList.all (fun c => c.toNat < 128) && Names.isValidName (Names.ascii s)
+
+/-- `strings.HasSuffix(name, "#ephemeral")` (character-wise; the suffix is ASCII, so this is the byte-wise test) -/
+def ephName (c : String) : Bool := "#ephemeral".toList.isSuffixOf c.toList
+
+/-- one configured lookupd as `GetTopic` sees it. `identified`: `lp.Info.BroadcastAddress` is non-empty, i.e. SOME
+IDENTIFY round trip to it has succeeded since the peer was added (the address is cached and survives later
+disconnects; `lookupdHTTPAddrs()` skips a peer without it, whatever its HTTP side could answer). `answer`: `some l` =
+that lookupd answered `/channels?topic=` with `l`, `none` = the query failed (down, refused, timeout, garbage). -/
+structure Lookupd where
+  identified : Bool
+  answer : Option (List String)
+deriving Repr
+
+/-- channels created on a brand-new topic before `t.Start()`. `GetLookupdTopicChannels` returns the union of the
+lists that did arrive *together with* an error when only some queries failed; `GetTopic` logs the error and still
+uses the list. `#ephemeral` names are skipped. `f35 = true` is the tree with
+fixes/F35_precreate_validates_channel_names.patch: a name that is not a valid channel name is skipped (it came from
+the network); `f35 = false`: every other name is created verbatim. -/
+def precreateG (f35 : Bool) (ls : List Lookupd) : List String :=
+  ((((ls.filter (·.identified)).filterMap (·.answer)).flatten).eraseDups).filter
+    (fun c => !ephName c && (!f35 || validName c))
+
+/-- the tree with F35 -/
+def precreate (ls : List Lookupd) : List String := precreateG true ls
+
+/-- the bytes of the command line nsqd writes for a channel notification (`nsq.Register(topic, channel)` =
+`REGISTER topic channel\n`; go-nsq joins the parameters with single blanks and does not check them) -/
+def registerLine (t c : String) : List Char :=
+  ['R', 'E', 'G', 'I', 'S', 'T', 'E', 'R', ' '] ++ t.toList ++ [' '] ++ c.toList ++ ['\n']
 
 end Nsq.Model.LookupSync
